@@ -322,6 +322,50 @@ def r05_7(run):
     run.count("dtype-kind tests", n)
 
 
+def r05_8(run):
+    """UnView.backward_var zeroes the written region *through the replayed view functions*: the buffer they are replayed on must be laid out
+    like the base (allocated *_like(<base placeholder>.data)), otherwise a reshape in the sequence copies instead of viewing"""
+    fi = anchor_func(run, "mygrad._utils.duplicating_graph.UnView.backward_var")
+    cfg = build_cfg(run, fi, {"index": 0, "index == 0": True})
+    zero = [s for s in own_nodes(fi.node) if (isinstance(s, ast.AugAssign) and isinstance(s.op, ast.Mult) and norm(s.value) in ("0", "0.0"))
+            or (isinstance(s, ast.Assign) and isinstance(s.targets[0], ast.Subscript) and norm(s.value) in ("0", "0.0"))]
+    zero = [z for z in zero if cfg.node_for(z) is not None and cfg.reachable(cfg.node_for(z))]
+    if not zero:
+        raise AnalysisError(f"{fi.short}: the statement zeroing the view region was not found")
+    tgt = zero[0].target if isinstance(zero[0], ast.AugAssign) else zero[0].targets[0].value
+    # chase plain copies and `x = fn(x)` replays back to the allocation
+    seen, work, allocs = set(), [(norm(tgt), cfg.node_for(zero[0]))], []
+    while work:
+        name, at = work.pop()
+        for d in reaching_defs(cfg, name, at):
+            if d == ENTRY or (name, d) in seen:
+                if d == ENTRY:
+                    allocs.append(None)
+                continue
+            seen.add((name, d))
+            v = getattr(cfg.stmt[d], "value", None)
+            if isinstance(v, ast.Name):
+                work.append((v.id, d))
+            elif isinstance(v, ast.Call) and isinstance(v.func, ast.Name) and len(v.args) == 1 and isinstance(v.args[0], ast.Name) and not (dotted(v.func) or "").endswith("_like"):
+                work.append((v.args[0].id, d))  # grad_view = fn(grad_view)
+            else:
+                allocs.append(v)
+    unpack = [s for s in own_nodes(fi.node) if isinstance(s, ast.Assign) and norm(s.value) == "self.variables" and isinstance(s.targets[0], ast.Tuple)]
+    base_names = {"self.variables[0]"} | ({norm(unpack[0].targets[0].elts[0])} if unpack else set())
+
+    def like_base(v):
+        return isinstance(v, ast.Call) and (dotted(v.func) or "").split(".")[-1] in ("empty_like", "zeros_like", "ones_like", "full_like") \
+            and v.args and norm(v.args[0]) in {f"{b}.data" for b in base_names}
+
+    ok = bool(allocs) and all(like_base(v) for v in allocs)
+    bad = next((v for v in allocs if not like_base(v)), None)
+    run.ob("R05.8", loc(fi, zero[0]), fi.short, "the buffer on which UnView replays the view functions is allocated with the base's memory layout", ok,
+           "*_like(<base placeholder>.data) reaches the zeroing statement through the replayed view functions" if ok else
+           f"the buffer comes from `{norm(bad)[:50] if bad is not None else 'the incoming gradient itself'}`: its layout is that of the incoming gradient (or C order), "
+           f"not the base's; for an F-ordered base a reshape in the view sequence copies, the region is zeroed in the copy (or the internal assertion fails) "
+           f"and every backward() after an in-place write through such a view is wrong or raises")
+
+
 def check(run):
     run.rule("R05.1", "the tracked in-place kernel writes into a private copy of the base (def-use chain to graph.base.tensor.copy()), made after "
              "the graph duplication; operands are placeholders", floor=4)
@@ -338,3 +382,5 @@ def check(run):
     r05_6(run)
     run.rule("R05.7", "dtype-kind tests (np.issubdtype / issubclass on a dtype) name abstract scalar classes, never one concrete width", floor=8)
     r05_7(run)
+    run.rule("R05.8", "UnView replays the view functions on a buffer laid out like the base", floor=1)
+    r05_8(run)
